@@ -628,6 +628,7 @@ def _run(ctx):
         torch.set_default_dtype(torch.float64)
     import extra_oracles as _xo
     _xo.api_history_and_dtype(ctx, "C18")
+    _xo.c18_radius_independence(ctx, __import__("e3nn").io)
     ctx.notes["rule"] = (
         "lmax 0..6 (quick 0..3), (p_val,p_arg) in {+-1}^2. Driver streams (model vs code): constructor on lmax -2..13 x p_val,p_arg -2..3 "
         "(exact strings incl. dim, lmax, the spherical_harmonics guard); norms on dyadic/random/one-hot/wrong-length vectors; signal_xyz, "
